@@ -18,8 +18,13 @@ EXTENDS STFS, Json
 TraceLog == ndJsonDeserialize("trace.ndjson")
 Shapes   == JsonDeserialize("shapes.json")
 
-VARIABLES l, skip
-tvars == <<vars, l, skip>>
+VARIABLES l, skip, deg
+tvars == <<vars, l, skip, deg>>
+\* A divergence in layout only (record count, tape length, tombstones, last-known positions: what no property
+\* demands) does not end the comparison: the trace goes on in "degraded" mode (deg), in which only the outcome
+\* of each call and the visible tree are compared - what a caller can see does not depend on the layout.
+SoftCats == {"nrec", "blocks", "rowdom", "rowdel", "rowlk"}
+VisCats  == {"res", "visdom", "viskind", "viscontent", "visattr", "tree"}
 
 Ev == TraceLog[l]
 
@@ -73,7 +78,7 @@ Mismatch(e, res, tp, te, idx) ==
 
 CallOf(c) == C(c.op, c.p, c.q, c.c, c.k)
 
-TInit == Init /\ l = 1 /\ skip = TRUE
+TInit == Init /\ l = 1 /\ skip = TRUE /\ deg = FALSE
 
 Reset ==
   /\ l <= Len(TraceLog) /\ "reset" \in DOMAIN Ev
@@ -82,22 +87,24 @@ Reset ==
      IN /\ tape' = st.tape /\ tend' = st.tend /\ index' = st.index /\ ref' = st.ref
         /\ narch' = 1 /\ epoch' = epoch + 1 /\ hs' = << >>
         /\ last' = Obs(C("Init", Root, Root, "", 0), "ok", FALSE, 1)
-        /\ skip' = (b # {})
+        /\ skip' = (b # {}) /\ deg' = FALSE
         /\ (b # {} => PrintT(<<"DIVERGE", l, b>>))
   /\ l' = l + 1
 
 Step ==
   /\ l <= Len(TraceLog) /\ "call" \in DOMAIN Ev /\ ~skip
   /\ Do(CallOf(Ev.call))
-  /\ LET b == Mismatch(Ev, last'.res, tape', tend', index') IN
-        /\ skip' = (b # {})
+  /\ LET b0 == Mismatch(Ev, last'.res, tape', tend', index')
+         b  == IF deg THEN b0 \cap VisCats ELSE b0
+     IN /\ skip' = (b # {} /\ ~(b \subseteq SoftCats))
+        /\ deg' = (deg \/ (b # {} /\ b \subseteq SoftCats))
         /\ (b # {} => PrintT(<<"DIVERGE", l, b>>))
   /\ l' = l + 1
 
 Skip ==
   /\ l <= Len(TraceLog) /\ "call" \in DOMAIN Ev /\ skip
   /\ l' = l + 1
-  /\ UNCHANGED <<vars, skip>>
+  /\ UNCHANGED <<vars, skip, deg>>
 
 TNext == Reset \/ Step \/ Skip
 TSpec == TInit /\ [][TNext]_tvars
